@@ -92,6 +92,18 @@ FIXED.append(
                   'Sheet1!B3': ['call', 'COUNTA', [['range', 'A1:A3']]],
                   'Sheet1!B4': ['op', '&', ['ref', 'B1'], ['str', '!']]},
      'sheets': ['Sheet1'], 'setvals': ['XYZ', None, 5.5], 'maxlen': 3})
+FIXED.append(
+    # an evaluation that FAILS half way (unknown function after a range has
+    # been read) in the middle of a history: what it leaves behind must not
+    # reach later evaluations
+    {'inputs': {'Sheet1!A1': 1, 'Sheet1!A2': 2},
+     'formulas': {'Sheet1!B1': ['call', 'SUM', [['range', 'A1:A2']]],
+                  'Sheet1!B2': ['op', '+', ['call', 'SUM', [
+                      ['range', 'A1:A2']]], ['call', 'NOSUCHFN', [
+                          ['ref', 'A1']]]],
+                  'Sheet1!B3': ['op', '+', ['call', 'MAX', [
+                      ['range', 'A1:A2']]], ['ref', 'B1']]},
+     'sheets': ['Sheet1'], 'setvals': [50, 0.5]})
 for _m in FIXED:
     _m['order'] = list(_m['formulas'])
 PLACEHOLDER = 987654321
